@@ -98,6 +98,12 @@ theorem segsNonempty_of_keyOk {kv : AMap Scalar} (h : ∀ p ∈ kv, KeyOk p.1) :
 theorem keysNoSuffix_of_keyOk {kv : AMap Scalar} (h : ∀ p ∈ kv, KeyOk p.1) : KeysNoSuffix kv :=
   fun p hp s hs => (h p hp s hs).2
 
+/-- keys whose components are non-empty words over the path-safe alphabet `[A-Za-z0-9_-]`
+    satisfy `KeyOk` -/
+theorem keyOk_of_safe (k : String)
+    (h : ∀ s ∈ splitPath k, s ≠ "" ∧ ∀ c ∈ s.toList, safeChar c = true) : KeyOk k :=
+  fun s hs => ⟨(h s hs).1, hasIdxSuffix_of_safe s (h s hs).2⟩
+
 /-- flattenPlain(utils.Unflatten(kv)) == kv when no key is a dotted prefix of another. -/
 theorem unflatten_flatten (kv : AMap Scalar) (hs : AMap.Sorted kv) (hk : ∀ p ∈ kv, KeyOk p.1)
     (hpf : PrefixFree kv) : flattenPlainMap (unflatten (toV kv)) = kv :=
